@@ -12,3 +12,5 @@ pub mod net;
 pub mod shutdown;
 pub mod storage;
 pub mod telemetry;
+#[cfg(feature = "verif")]
+pub mod verif;
